@@ -11,6 +11,7 @@ What is *not* yet a theorem: the composition over the whole file walk and the en
 statement `loadMesh (encode O) = leafRows O`; that step is carried by the correspondence
 (real loader = loader model = Spec leaf rows on every generated output).
 -/
+import OsyrisProofs.Layout
 import OsyrisProofs.Readers
 import OsyrisModel.Generated.UnitsLib
 
